@@ -5,6 +5,8 @@ spec:   spec/WsBuffer.tla        pump / receiver / server hand-off, one action p
                                  switch, liveness under fairness, behaviour export)
         spec/WsBufferTrace.tla   boundary-trace judge; queue / in-hand / waiters are inferred by TLC
 legs:   M  exhaustive TLC check of the design (safety + liveness, per-action coverage, vacuity switch)
+           the application is a reader task and a writer task: close()/send() under a pending receive,
+           and a failing server receive(), are part of the model
         A  TLC-generated behaviours -> stimulus scripts driven on the real falcon.asgi WebSocket:
            A1 run-to-quiescence behaviours: the result of every application call is compared with
               the specification's; A2 simulated fine-grained behaviours projected to racy scripts
@@ -26,8 +28,9 @@ META = {
                   'same specification.',
     'level_note': 'Bounded: model <= 5 messages / <= 7 application calls / 2 cancellations; real schedules <= 8 messages, '
                   '<= 10 calls, <= 40 stimuli.  "Held" is read as enqueued (+1 message in the pump\'s hand, reported). '
-                  'Scripts end at close(): calls on a socket the application closed itself belong to C17. '
-                  'Trusted: TLC, asyncio FIFO scheduling, the fake ASGI server in engine/steploop.py.',
+                  'The application is a reader task plus a writer task (send/close under a pending receive); an injected '
+                  'failure of the server receive() is covered for pending/later receives only. No call is started after '
+                  'close() returned (C17). Trusted: TLC, asyncio FIFO scheduling, the fake ASGI server in engine/steploop.py.',
 }
 
 from engine import bytesrc, steploop
